@@ -45,6 +45,7 @@
 #include "extensions/qconfig.h"
 
 #define _INCLUDE_DIRECTIVE  "@INCLUDE "
+#define _MAX_DEPTH          (64)  // of references inside references
 
 #ifndef _DOXYGEN_SKIP
 #define _VAR        '$'
@@ -335,18 +336,135 @@ qlisttbl_t *qconfig_parse_str(qlisttbl_t *tbl, const char *str, char sepchar) {
  *  qLibc, /home/qlibc, Wed Nov 24 00:30:58 UTC 2010
  * @endcode
  */
-// true if str has a "${" that is not closed inside str.
-static bool _has_open_ref(const char *str) {
-    int opened = 0;
-    for (; *str != '\0'; str++) {
-        if (*str == _VAR && *(str + 1) == _VAR_OPEN) {
-            opened++;
-            str++;
-        } else if (*str == _VAR_CLOSE && opened > 0) {
-            opened--;
-        }
+// appends len bytes of src to the string in *buf, growing it as needed.
+static bool _append(char **buf, size_t *size, size_t *used, const char *src,
+                    size_t len) {
+    if (*used + len + 1 > *size) {
+        size_t newsize = (*used + len + 1) * 2;
+        char *newbuf = (char *) realloc(*buf, newsize);
+        if (newbuf == NULL)
+            return false;
+        *buf = newbuf;
+        *size = newsize;
     }
-    return (opened > 0);
+    memcpy(*buf + *used, src, len);
+    *used += len;
+    (*buf)[*used] = '\0';
+    return true;
+}
+
+// expands the references in str. names[0..depth-1] are the references that
+// are being expanded at the moment. a reference to one of them stays as it is,
+// and text that came out of an expansion is not scanned once more together
+// with its neighbours, so a circle of values - however it is assembled -
+// can't keep the expansion going forever.
+static char *_expand(qlisttbl_t *tbl, const char *str, const char **names,
+                     int depth) {
+    size_t size = strlen(str) + 1, used = 0;
+    char *out = (char *) malloc(size);
+    if (out == NULL)
+        return NULL;
+    out[0] = '\0';
+
+    const char *s = str;
+    while (*s != '\0') {
+        if (!(*s == _VAR && *(s + 1) == _VAR_OPEN)) {
+            if (_append(&out, &size, &used, s, 1) == false)
+                goto nomem;
+            s++;
+            continue;
+        }
+
+        // found ${, try to find the matching }. s points $
+        const char *e;
+        int openedbrakets = 1;  // braket open counter
+        for (e = s + 2; *e != '\0'; e++) {
+            if (*e == _VAR_OPEN)
+                openedbrakets++;
+            else if (*e == _VAR_CLOSE && --openedbrakets == 0)
+                break;
+        }
+        if (*e == '\0') {
+            // braket mismatch, it's a text.
+            if (_append(&out, &size, &used, s, 2) == false)
+                goto nomem;
+            s += 2;
+            continue;
+        }
+
+        // pick string between ${, } and expand the references inside first.
+        char *rawstr = (char *) malloc(e - s - 2 + 1);
+        if (rawstr == NULL)
+            goto nomem;
+        memcpy(rawstr, s + 2, e - s - 2);
+        rawstr[e - s - 2] = '\0';
+        char *varstr = _expand(tbl, rawstr, names, depth);
+        free(rawstr);
+        if (varstr == NULL)
+            goto nomem;
+
+        // a reference that is being expanded already can't be resolved
+        bool resolve = (depth < _MAX_DEPTH);
+        int i;
+        for (i = 0; resolve == true && i < depth; i++) {
+            if (!strcmp(names[i], varstr))
+                resolve = false;
+        }
+
+        // get the new string to replace
+        char *newstr = NULL;
+        if (resolve == true) {
+            switch (varstr[0]) {
+                case _VAR_CMD: {
+                    if (varstr[1] == '\0'
+                        || (newstr = qstrtrim(qsyscmd(varstr + 1))) == NULL) {
+                        newstr = strdup("");
+                    }
+                    break;
+                }
+                case _VAR_ENV: {
+                    newstr = strdup((varstr[1] == '\0') ? ""
+                                    : qgetenv(varstr + 1, ""));
+                    break;
+                }
+                case '\0': {
+                    newstr = strdup("");
+                    break;
+                }
+                default: {
+                    newstr = tbl->getstr(tbl, varstr, true);
+                    break;
+                }
+            }
+        }
+
+        bool ok;
+        if (newstr == NULL) {
+            // not found, leave it as it is
+            ok = _append(&out, &size, &used, "${", 2)
+                && _append(&out, &size, &used, varstr, strlen(varstr))
+                && _append(&out, &size, &used, "}", 1);
+        } else {
+            // the value can have references too
+            names[depth] = varstr;
+            char *expanded = _expand(tbl, newstr, names, depth + 1);
+            free(newstr);
+            ok = (expanded != NULL
+                && _append(&out, &size, &used, expanded, strlen(expanded)));
+            free(expanded);
+        }
+        free(varstr);
+        if (ok == false)
+            goto nomem;
+
+        s = e + 1;
+    }
+
+    return out;
+
+    nomem:
+    free(out);
+    return NULL;
 }
 
 static char *_parsestr(qlisttbl_t *tbl, const char *str) {
@@ -355,161 +473,8 @@ static char *_parsestr(qlisttbl_t *tbl, const char *str) {
         return NULL;
     }
 
-    bool loop;
-    char *value = strdup(str);
-    // references whose expansion brought the beginning of a reference into
-    // the string; each of them is expanded only once per string, see below.
-    char **expanded = NULL;
-    int numexpanded = 0;
-    do {
-        loop = false;
-
-        // find ${
-        char *s, *e;
-        int openedbrakets;
-        for (s = value; *s != '\0'; s++) {
-            if (!(*s == _VAR && *(s + 1) == _VAR_OPEN))
-                continue;
-
-            // found ${, try to find }. s points $
-            openedbrakets = 1;  // braket open counter
-            for (e = s + 2; *e != '\0'; e++) {
-                if (*e == _VAR && *(e + 1) == _VAR_OPEN) {  // found internal ${
-                    // e is always bigger than s, negative overflow never occure
-                    s = e - 1;
-                    break;
-                } else if (*e == _VAR_OPEN)
-                    openedbrakets++;
-                else if (*e == _VAR_CLOSE)
-                    openedbrakets--;
-                else
-                    continue;
-
-                if (openedbrakets == 0)
-                    break;
-            }
-            if (*e == '\0')
-                break;  // braket mismatch
-            if (openedbrakets > 0)
-                continue;  // found internal ${
-
-            // pick string between ${, }
-            int varlen = e - s - 2;  // length between ${ , }
-            char *varstr = (char *) malloc(varlen + 3 + 1);
-            if (varstr == NULL)
-                continue;
-            strncpy(varstr, s + 2, varlen);
-            varstr[varlen] = '\0';
-
-            // get the new string to replace
-            char *newstr = NULL;
-            switch (varstr[0]) {
-                case _VAR_CMD: {
-                    if (varlen - 1 == 0) {
-                        newstr = strdup("");
-                        break;
-                    }
-                    if ((newstr = qstrtrim(qsyscmd(varstr + 1))) == NULL) {
-                        newstr = strdup("");
-                    }
-                    break;
-                }
-                case _VAR_ENV: {
-                    if (varlen - 1 == 0) {
-                        newstr = strdup("");
-                        break;
-                    }
-                    newstr = strdup(qgetenv(varstr + 1, ""));
-                    break;
-                }
-                default: {
-                    if (varlen == 0) {
-                        newstr = strdup("");
-                        break;
-                    }
-                    if ((newstr = tbl->getstr(tbl, varstr, true)) == NULL) {
-                        s = e;  // not found
-                        continue;
-                    }
-                    break;
-                }
-            }
-
-            // replace
-            strncpy(varstr, s, varlen + 3);  // ${str}
-            varstr[varlen + 3] = '\0';
-
-            // a value that refers to itself can't be resolved, leave it as it is
-            if (strstr(newstr, varstr) != NULL) {
-                free(newstr);
-                free(varstr);
-                s = e;
-                continue;
-            }
-
-            // values can also refer to each other through pieces of
-            // references ("${b}}" and "${a", or "{a}$" next to "{a}"), which
-            // no single value shows. an expansion that brings the beginning
-            // of a reference into the string - a "${" that is not closed
-            // inside the value, or a '$' or '{' that meets its other half at
-            // the edge of the value - is made only once per reference, so
-            // such a circle is left as it is instead of being expanded
-            // forever. complete references inside a value only name
-            // variables that were defined later than it, so they end.
-            size_t newlen = strlen(newstr);
-            bool newref = (_has_open_ref(newstr) == true
-                    || (newlen > 0 && newstr[0] == _VAR_OPEN
-                        && newstr[newlen - 1] == _VAR));
-            char *occ;
-            for (occ = value; newref == false && newlen > 0
-                    && (occ = strstr(occ, varstr)) != NULL; occ++) {
-                if ((newstr[0] == _VAR_OPEN && occ > value
-                        && *(occ - 1) == _VAR)
-                    || (newstr[newlen - 1] == _VAR
-                        && *(occ + varlen + 3) == _VAR_OPEN)) {
-                    newref = true;
-                }
-            }
-            if (newref == true) {
-                int i;
-                for (i = 0; i < numexpanded; i++) {
-                    if (!strcmp(expanded[i], varstr)) break;
-                }
-                char **tmp = NULL;
-                if (i == numexpanded) {
-                    tmp = (char **) realloc(expanded,
-                            sizeof(char *) * (numexpanded + 1));
-                }
-                if (tmp == NULL) {  // expanded before (or out of memory)
-                    free(newstr);
-                    free(varstr);
-                    s = e;
-                    continue;
-                }
-                expanded = tmp;
-            }
-
-            s = qstrreplace("sn", value, varstr, newstr);
-            free(newstr);
-            if (newref == true) {
-                expanded[numexpanded++] = varstr;
-            } else {
-                free(varstr);
-            }
-            free(value);
-            value = s;
-
-            loop = true;
-            break;
-        }
-    } while (loop == true);
-
-    while (numexpanded > 0) {
-        free(expanded[--numexpanded]);
-    }
-    free(expanded);
-
-    return value;
+    const char *names[_MAX_DEPTH];
+    return _expand(tbl, str, names, 0);
 }
 
 #endif /* _DOXYGEN_SKIP */
